@@ -1,10 +1,13 @@
 /* C12 / C07: secp256k1_musig_partial_sig_verify (BIP-327 PartialSigVerifyInternal wiring), real code, every pointer
- * NULL or an object with arbitrary bytes.
- * Oracles with logs: secp256k1_ecmult, secp256k1_gej_add_var, secp256k1_scalar_mul, secp256k1_musig_keyaggcoef.
+ * NULL or an object with arbitrary bytes.  All five objects are OPAQUE: they are decoded with the TU's own *_load functions and
+ * every clause is over decoded fields and oracle operand VALUES (commutative operands in either order, no call counts - audit
+ * #2, #17, #18).  Oracles with logs: secp256k1_ecmult or secp256k1_ecmult_multi_var (either may carry the equation),
+ * secp256k1_gej_add_var, secp256k1_scalar_mul, secp256k1_musig_keyaggcoef (logs the cache CONTENT it was asked about - audit #27).
  * Summary: secp256k1_effective_nonce (Re = R1 + b*R2; its body is exercised by C12.nonce_process).
  *   accept <=> (-s)*G + (g'*e*mu)*P + (+/-)Re == infinity   where g' = -1 iff odd(y(Q)) != parity_acc,
- *   Re negated iff the session's final-nonce parity is set, mu = KeyAgg coefficient of P, s = the partial signature */
+ *   Re negated iff the session's final-nonce parity is set, mu = KeyAgg coefficient of P in THIS cache, s = the partial signature */
 #define LOG_ECMULT
+#define LOG_ECMULT_MULTI
 #define LOG_SCALAR_MUL
 #define LOG_GEJ_ADD
 #define LOG_KEYAGGCOEF
@@ -12,25 +15,22 @@
 #include "assumed_musig.h"
 #include "src/secp256k1.c"
 #include "post.h"
+#include "decode.h"
 
 #ifndef VERIF_NATIVE
-static wide le256(const unsigned char *b) { wide v = 0; int i; for (i = 31; i >= 0; i--) v = (v << 8) | W(b[i]); return v; }
 static int is_neg_mod_p(wide a, wide b) { wide p = P_(); int i, hit = 0; for (i = 0; i < 20; i++) hit |= (a + b == (wide)i * p); return hit; }   /* a = -b (mod p), operands of magnitude <= 8 */
-static wide modn1(wide v) { wide n = N_(); return v >= n ? v - n : v; }
-static wide negn(wide v) { return v == 0 ? 0 : N_() - v; }
+static int same_ge(const secp256k1_ge *a, const secp256k1_ge *b) { return a->infinity == b->infinity && (a->infinity || (cval4(&a->x) == cval4(&b->x) && cval4(&a->y) == cval4(&b->y))); }
 #endif
 
 void h_psig_verify(void) {
     secp256k1_context ctx;
     INPUT(secp256k1_musig_partial_sig, psig); INPUT(secp256k1_musig_pubnonce, pn); INPUT(secp256k1_pubkey, pk); INPUT(secp256k1_musig_keyagg_cache, cache); INPUT(secp256k1_musig_session, sess);
-    INPUT(_Bool, use_psig); INPUT(_Bool, use_pn); INPUT(_Bool, use_pk); INPUT(_Bool, use_cache); INPUT(_Bool, use_sess);
-    int ret, ok_psig, ok_pn, ok_cache, ok_sess;
+    INPUT(_Bool, use_psig); INPUT(_Bool, use_pn); INPUT(_Bool, use_pk); INPUT(_Bool, use_cache); INPUT(_Bool, use_sess); INPUT(size_t, ki);
+    secp256k1_scalar sv_; secp256k1_ge pts[2], P; secp256k1_keyagg_cache_internal ci; secp256k1_musig_session_internal si;
+    int ret, ok_psig, ok_pn, ok_pk, ok_cache, ok_sess;
+    dec_init(); ok_psig = dec_psig(&sv_, &psig); ok_pn = dec_pubnonce(pts, &pn); ok_pk = dec_pubkey(&P, &pk); ok_cache = dec_cache(&ci, &cache); ok_sess = dec_session(&si, &sess);
     verif_ctx_init(&ctx);
-    g_ecmult_n = 0; g_mul_n = 0; g_aj_n = 0; g_kc_n = 0; g_en_n = 0;
-    ok_psig = psig.data[0] == 0xeb && psig.data[1] == 0xfb && psig.data[2] == 0x1a && psig.data[3] == 0x32;
-    ok_pn = pn.data[0] == 0xf5 && pn.data[1] == 0x7a && pn.data[2] == 0x3d && pn.data[3] == 0xa0;
-    ok_cache = cache.data[0] == 0xf4 && cache.data[1] == 0xad && cache.data[2] == 0xbb && cache.data[3] == 0xdf;
-    ok_sess = sess.data[0] == 0x9d && sess.data[1] == 0xed && sess.data[2] == 0xe9 && sess.data[3] == 0x17;
+    g_ecmult_n = 0; g_mm_n = 0; g_mul_n = 0; g_aj_n = 0; g_kc_n = 0; g_en_n = 0; g_kc_i = ki; __CPROVER_assume(g_kc_i < 32);
 
     ret = secp256k1_musig_partial_sig_verify(&ctx, use_psig ? &psig : NULL, use_pn ? &pn : NULL, use_pk ? &pk : NULL, use_cache ? &cache : NULL, use_sess ? &sess : NULL);
 
@@ -38,33 +38,40 @@ void h_psig_verify(void) {
     __CPROVER_assert(g_error == 0, "C07 partial_sig_verify: error callback never invoked");
     __CPROVER_assert(g_illegal <= 1, "C07 partial_sig_verify: at most one illegal-argument report");
 #ifndef VERIF_NATIVE
-    if (!use_psig || !use_pn || !use_pk || !use_cache || !use_sess || !ok_psig || !ok_pn || !ok_cache || !ok_sess || le256(&pk.data[0]) == 0) {
-        __CPROVER_assert(ret == 0 && g_illegal == 1 && g_ecmult_n == 0 && g_aj_n == 0, "C12 partial_sig_verify: NULL argument, object without its magic or zero public key is illegal; no verdict is computed");
-        if (use_psig && use_pn && use_pk && use_cache && use_sess && ok_sess && ok_pn && ok_cache && !ok_psig) REACH("partial_sig_verify signature object without magic");
+    if (!use_psig || !use_pn || !use_pk || !use_cache || !use_sess || !ok_psig || !ok_pn || !ok_cache || !ok_sess || !ok_pk) {
+        __CPROVER_assert(ret == 0 && g_illegal == 1, "C12 partial_sig_verify: NULL argument or an uninitialised/invalid object is illegal and never verifies");
+        if (use_psig && use_pn && use_pk && use_cache && use_sess && ok_sess && ok_pn && ok_cache && ok_pk && !ok_psig) REACH("partial_sig_verify signature object without magic");
         return;
     }
     {
-        wide p = P_(), e = modn1(be256(&sess.data[69])), b = modn1(be256(&sess.data[37])), s = modn1(be256(&psig.data[4]));
-        wide Qy = le256(&cache.data[36]); int par_acc = cache.data[164] & 1, canonQ = Qy < p, neg_e, nonce_par = sess.data[4] != 0;
-        wide emu;
+        wide p = P_(), e = sval(&si.challenge), b = sval(&si.noncecoef), s = sval(&sv_), Qy = fval(&ci.pk.y), emu, want_na;
+        int canonQ = Qy < p, neg_e = ((int)(Qy & 1)) != ci.parity_acc, nonce_par = si.fin_nonce_parity != 0, wiring, eq_a, eq_b;
+        const secp256k1_gej *T;
         __CPROVER_assert(g_illegal == 0, "C07 partial_sig_verify: no callback for initialised objects, whatever their content");
-        /* effective nonce: both public nonce points and the session's b */
-        __CPROVER_assert(g_en_n == 1 && sval(&g_en_b) == b, "C12 partial_sig_verify: effective nonce uses the session's nonce coefficient");
-        __CPROVER_assert(!g_en_p0.infinity && !g_en_p1.infinity && fval(&g_en_p0.x) == le256(&pn.data[4]) && fval(&g_en_p0.y) == le256(&pn.data[36]) && fval(&g_en_p1.x) == le256(&pn.data[68]) && fval(&g_en_p1.y) == le256(&pn.data[100]), "C12 partial_sig_verify: effective nonce is over the signer's two public nonce points");
-        /* mu for THIS public key, e*mu */
-        __CPROVER_assert(g_kc_n == 1 && fval(&g_kc_pk0.x) == le256(&pk.data[0]) && fval(&g_kc_pk0.y) == le256(&pk.data[32]), "C12 partial_sig_verify: KeyAgg coefficient requested for the given public key");
-        __CPROVER_assert(g_mul_n == 1 && sval(&g_mul_a0) == e && SC_EQ(g_mul_b0, g_kc_r0), "C12 partial_sig_verify: the challenge is multiplied by the KeyAgg coefficient");
-        emu = sval(&g_mul_r0);
-        neg_e = ((int)(Qy & 1)) != par_acc;
-        /* the equation */
-        __CPROVER_assert(g_ecmult_n == 1 && g_ecmult_has_na0 && g_ecmult_has_ng0, "C12 partial_sig_verify: one double multiplication");
-        __CPROVER_assert(sval(&g_ecmult_ng0) == negn(s), "C12 partial_sig_verify: generator scalar is -s with s the partial signature");
-        if (canonQ) __CPROVER_assert(sval(&g_ecmult_na0) == (neg_e ? negn(emu) : emu), "C12 partial_sig_verify: point scalar is e*mu, negated exactly when odd(y(Q)) != parity accumulator");
-        __CPROVER_assert(!g_ecmult_a0.infinity && fe_same_or_normalised(fval(&g_ecmult_a0.x), le256(&pk.data[0])) && fe_same_or_normalised(fval(&g_ecmult_a0.y), le256(&pk.data[32])) && fval(&g_ecmult_a0.z) == 1, "C12 partial_sig_verify: the point multiplied is the signer's public key");
-        __CPROVER_assert(g_aj_n == 1 && GEJ_EQ(g_aj_a0, g_ecmult_r0), "C12 partial_sig_verify: the effective nonce is added to the multiplication result");
-        __CPROVER_assert(g_aj_b0.infinity == g_en_r.infinity && FE_EQ(g_aj_b0.x, g_en_r.x) && FE_EQ(g_aj_b0.z, g_en_r.z), "C12 partial_sig_verify: the added point has the effective nonce's x and z");
-        __CPROVER_assert(nonce_par ? is_neg_mod_p(fval(&g_aj_b0.y), fval(&g_en_r.y)) : FE_EQ(g_aj_b0.y, g_en_r.y), "C12 partial_sig_verify: the effective nonce is negated exactly when the final nonce parity is set");
-        __CPROVER_assert(ret == g_aj_r0.infinity, "C12 partial_sig_verify: verdict = the sum is the point at infinity");
+        /* the verdict is the infinity verdict of a sum whose one operand is the (possibly negated) effective nonce */
+        __CPROVER_assert(g_aj_n >= 1 && ret == g_aj_r0.infinity, "C12 partial_sig_verify: verdict = the final sum is the point at infinity");
+        __CPROVER_assert(g_en_n >= 1 && sval(&g_en_b) == b && same_ge(&g_en_p0, &pts[0]) && same_ge(&g_en_p1, &pts[1]), "C12 partial_sig_verify: effective nonce = R1 + b*R2 over the signer's two public nonce points and the session's b");
+        /* mu for THIS public key in THIS cache, times the challenge (either operand order) */
+        __CPROVER_assert(g_kc_n >= 1 && cval4(&g_kc_pk0.x) == cval(&P.x) && cval4(&g_kc_pk0.y) == cval(&P.y), "C12 partial_sig_verify: KeyAgg coefficient requested for the given public key");
+        __CPROVER_assert(g_kc_hash_b0 == ci.pks_hash[g_kc_i] && same_ge(&g_kc_second0, &ci.second_pk), "C12 partial_sig_verify: ... in the given cache (its key-list hash and second key)");
+        __CPROVER_assert(g_mul_n >= 1 && pair_eq(sval(&g_mul_a0), sval(&g_mul_b0), e, sval(&g_kc_r0)), "C12 partial_sig_verify: the challenge is multiplied by the KeyAgg coefficient");
+        emu = sval(&g_mul_r0); want_na = neg_e ? negn_(emu) : emu;
+        /* the equation, carried by ecmult or by ecmult_multi_var */
+        if (g_ecmult_n >= 1) {
+            T = &g_ecmult_r0;
+            wiring = g_ecmult_has_na0 && (!canonQ || sval(&g_ecmult_na0) == want_na) && (g_ecmult_has_ng0 ? sval(&g_ecmult_ng0) : 0) == negn_(s) &&
+                     !g_ecmult_a0.infinity && cval4(&g_ecmult_a0.x) == cval(&P.x) && cval4(&g_ecmult_a0.y) == cval(&P.y) && cval4(&g_ecmult_a0.z) == 1;
+            __CPROVER_assert(wiring, "C12 partial_sig_verify: computes (-s)*G + (e*mu)*P, e*mu negated exactly when odd(y(Q)) != parity accumulator");
+        } else {
+            __CPROVER_assert(g_mm_n >= 1, "C12 partial_sig_verify: the equation goes through a multiplication oracle");
+            T = &g_mm_r;
+            __CPROVER_assert((g_mm_has_gsc ? sval(&g_mm_gscv) : 0) == negn_(s) && g_mm_count == 1, "C12 partial_sig_verify: multi-multiplication form: generator scalar -s and one point term");
+        }
+        eq_a = GEJ_EQ(g_aj_a0, *T) && g_aj_b0.infinity == g_en_r.infinity && cval4(&g_aj_b0.x) == cval4(&g_en_r.x) && FE_EQ(g_aj_b0.z, g_en_r.z) &&
+               (nonce_par ? is_neg_mod_p(fval(&g_aj_b0.y), fval(&g_en_r.y)) : cval4(&g_aj_b0.y) == cval4(&g_en_r.y));
+        eq_b = GEJ_EQ(g_aj_b0, *T) && g_aj_a0.infinity == g_en_r.infinity && cval4(&g_aj_a0.x) == cval4(&g_en_r.x) && FE_EQ(g_aj_a0.z, g_en_r.z) &&
+               (nonce_par ? is_neg_mod_p(fval(&g_aj_a0.y), fval(&g_en_r.y)) : cval4(&g_aj_a0.y) == cval4(&g_en_r.y));
+        __CPROVER_assert(eq_a || eq_b, "C12 partial_sig_verify: the sum is (multiplication result) + Re, Re negated exactly when the final nonce parity is set");
         if (ret == 1 && nonce_par && neg_e && canonQ) REACH("partial_sig_verify accepts with both negations");
         if (ret == 0 && !nonce_par) REACH("partial_sig_verify rejects");
         if (s == 0) REACH("partial_sig_verify zero signature");
